@@ -10,32 +10,31 @@ V = os.path.dirname(os.path.dirname(os.path.abspath(__file__)))
 
 
 def main():
+    """runs the checks against a scratch copy of /repo's working tree with the patch applied (NMFU_REPO), so /repo itself is never touched"""
+    import tempfile, shutil
     patch = os.path.abspath(sys.argv[1])
     checks = sys.argv[2:]
-    st = subprocess.run(["git", "-C", "/repo", "status", "--porcelain", "--untracked-files=no"], capture_output=True, text=True).stdout.strip()
-    if st:
-        print("refusing: /repo has local modifications:\n" + st)
-        return 2
-    r = subprocess.run(["git", "-C", "/repo", "apply", patch], capture_output=True, text=True)
-    if r.returncode:
-        print("patch does not apply:", r.stderr)
-        return 2
-    results = {}
+    tmp = tempfile.mkdtemp(prefix="nvmut", dir="/tmp")
     try:
+        subprocess.run("cd /repo && git ls-files -z | xargs -0 cp --parents -t %s" % tmp, shell=True, check=True)
+        r = subprocess.run(["patch", "-p1", "-s", "-d", tmp, "-i", patch], capture_output=True, text=True)
+        if r.returncode:
+            print("patch does not apply:", r.stdout, r.stderr)
+            return 2
         for c in checks:
             t = time.time()
             env = dict(os.environ)
-            env["NV_EVID_DIR"] = "/tmp/nv_mut_evidence"
-            env["NV_REPLAY_DIR"] = "/tmp/nv_mut_replays"
+            env["NMFU_REPO"] = tmp
+            env["NV_EVID_DIR"] = os.path.join(tmp, "_evidence")
+            env["NV_REPLAY_DIR"] = os.path.join(tmp, "_replays")
             p = subprocess.run([os.path.join(V, "run.py"), c], capture_output=True, text=True, cwd=V, env=env)
             nv = sum(1 for l in p.stdout.splitlines() if l.startswith("VIOLATION"))
             first = next((l for l in p.stdout.splitlines() if l.startswith("  -- ")), "")
-            results[c] = (p.returncode, nv)
             print("%s exit=%d violations=%d %.0fs %s" % (c, p.returncode, nv, time.time() - t, first[:300]))
             if p.returncode not in (0, 1):
                 print(p.stderr[-1500:])
     finally:
-        subprocess.run(["git", "-C", "/repo", "checkout", "--", "."])
+        shutil.rmtree(tmp, ignore_errors=True)
     return 0
 
 
